@@ -250,6 +250,11 @@ def parseFile (fs : FS) : Nat → St → Path → Bool → Except Abort St
 def parse (fs : FS) (fuel : Nat) (filename : Path) : Except Abort St :=
   parseFile fs fuel St.init filename true
 
+/-- what `errors.capture()` holds once `parse_file` has returned or raised -/
+def captured : Except Abort St → List Report
+  | .ok st => st.reports
+  | .error a => a.reports
+
 /-! ### rendering (`__str__`, `get_context`, `get_filename`) -/
 
 def Kind.message : Kind → Str
